@@ -144,8 +144,8 @@ package keeper
 //@ loop 0 invariant totalBidAmt == sum(t, 0, idx, ite(bids[t].AuctionId == auction.Id, sellOf(bids[t], auction.PayingCoinDenom), 0))
 
 //@ func (Keeper).GetBidsByBidder
-//@ ensures result1 == nil
-//@ ensures forall(j, int, 0 <= j && j < len(result0) ==> result0[j].Bidder == strOf(bidderAddr) && result0[j].Coin.Amount > 0 && result0[j].Price > 0)
+//@ ensures [C05,C06,C18] never-fails: result1 == nil
+//@ ensures [C05,C06,C19] lists-only-bids-of-the-bidder: forall(j, int, 0 <= j && j < len(result0) ==> result0[j].Bidder == strOf(bidderAddr) && result0[j].Coin.Amount > 0 && result0[j].Price > 0)
 // The listing-sum fact below combines the Walk order schema with finite-sum arithmetic (sum over the filtered listing of
 // the whole Bid collection = sum over the dense ids of one auction); it is assumed, not proved (trusted base T-Sigma-listing).
 //@ trusted-ensures listing-sums-per-auction: forall(a, uint64, forall(pd, string, sum(t, 0, len(result0), ite(result0[t].AuctionId == a, sellOf(result0[t], pd), 0)) == sumSellBy(a, strOf(bidderAddr), pd)))
